@@ -43,11 +43,13 @@ func init() {
 // ------------------------------------------------------------------------------ user constraint
 
 type userConstraint struct {
-	Level     string `json:"level"` // stop | vehicle | solution
-	Kind      string `json:"kind"`
-	K         int    `json:"k"`
-	T         float64 `json:"t"`
-	Temporal  bool   `json:"temporal"`
+	Level    string  `json:"level"` // stop | vehicle | solution
+	Kind     string  `json:"kind"`
+	K        int     `json:"k"`
+	T        float64 `json:"t"`
+	Temporal bool    `json:"temporal"`
+	// Kind "notfirst": the stop with this id must not come directly behind the vehicle's first stop
+	ID string `json:"id,omitempty"`
 	// Level "multi": ONE constraint object implementing all three check interfaces, one predicate per level
 	Sub       []*userConstraint `json:"sub,omitempty"`
 	rejected  int
@@ -70,6 +72,8 @@ func (u *userConstraint) stopBad(s nextroute.SolutionStop) bool {
 		return !s.IsFirst() && s.ArrivalValue() > u.T
 	case "cumtravel":
 		return s.CumulativeTravelDurationValue() > u.T
+	case "notfirst": // the named stop needs some stop in front of it
+		return !s.IsFirst() && !s.IsLast() && s.ModelStop().ID() == u.ID && s.Previous().IsFirst()
 	case "parity": // a stop with odd model index may not directly follow one with odd index
 		return !s.IsFirst() && !s.IsLast() && s.ModelStop().Index()%2 == 1 && !s.Previous().IsFirst() && s.Previous().ModelStop().Index()%2 == 1
 	}
@@ -254,9 +258,9 @@ func (u ucForbid) UpdateConstraintSolutionData(s nextroute.Solution) (nextroute.
 
 type ucObjective struct{ id *int }
 
-func (u ucObjective) String() string                                      { return "user_objective_zero" }
+func (u ucObjective) String() string                                         { return "user_objective_zero" }
 func (u ucObjective) EstimateDeltaValue(nextroute.SolutionMoveStops) float64 { return 0 }
-func (u ucObjective) Value(nextroute.Solution) float64                     { return 0 }
+func (u ucObjective) Value(nextroute.Solution) float64                       { return 0 }
 func (u ucObjective) UpdateObjectiveSolutionData(s nextroute.Solution) (nextroute.Copier, error) {
 	if d, ok := s.ObjectiveData(u).(*countData); ok && d != nil {
 		d.planned = plannedCount(s)
@@ -728,6 +732,13 @@ func runHist(o *Out, thorough bool, withUC bool) {
 		hc := &histCase{Case: c, Seed: rng.Int63()}
 		if withUC {
 			hc.UC = genUserConstraint(rng, c)
+			if len(c.InitUnplan) == 2 {
+				// the stop BETWEEN the stops of the initial unit must not become the first stop of the route: the scripted
+				// un-plan of that unit has to be rejected by the exact check AT THAT STOP — which lies in front of the unit's
+				// first-listed stop when the unit came in an order other than its own
+				hc.UC = &userConstraint{Level: "stop", Kind: "notfirst", ID: c.Stops[c.InitUnplan[1]].ID, Temporal: rng.Intn(2) == 0}
+				c.feature("uc-stop-between-initial-unit-must-not-be-first")
+			}
 			if len(c.FixedMid) == 3 {
 				// a constraint that lets the scripted prelude through (at most six stops on a vehicle); the rejection of the
 				// vehicle-level un-plan comes from the route-forbidding constraint
